@@ -166,6 +166,23 @@ impl FixtureDatabase {
         fixture_name: &str,
         exclude: Option<&FixtureDefinition>,
     ) -> Option<FixtureDefinition> {
+        // A workspace plugin is not part of the conftest hierarchy, wherever its file lies:
+        // the fixture its override requests can only come from further out (third-party),
+        // never from a conftest.py that happens to sit above the plugin's file
+        if let Some(excluded) = exclude {
+            if excluded.is_plugin && !excluded.is_third_party {
+                let definitions = self.definitions.get(fixture_name)?;
+                return definitions
+                    .iter()
+                    .filter(|def| def.is_third_party)
+                    .min_by(|a, b| {
+                        (&a.file_path, std::cmp::Reverse(a.line))
+                            .cmp(&(&b.file_path, std::cmp::Reverse(b.line)))
+                    })
+                    .cloned();
+            }
+        }
+
         self.find_closest_definition_with_filter(file_path, fixture_name, |def| {
             if let Some(excluded) = exclude {
                 def != excluded
